@@ -37,19 +37,44 @@ pub struct PeerState {
     pub wfail: usize,      // the wfail-th frame cannot be written: every write fails once wfail - 1 frames are through (0 = never)
     pub nw: usize,         // frames written so far
     pub wfail_logged: bool,
+    pub pause_at: usize,   // when the reader has consumed this many bytes, nothing arrives for pause_ms of virtual time (once)
+    pub pause_ms: u64,
+    pub paused: bool,
+    pub resume_at: Option<tokio::time::Instant>,
 }
 
 #[derive(Clone, Default)]
 pub struct Peer(pub Arc<Mutex<PeerState>>);
 
 impl AsyncRead for Peer {
-    fn poll_read(self: Pin<&mut Self>, _cx: &mut Context<'_>, buf: &mut ReadBuf<'_>) -> Poll<std::io::Result<()>> {
+    fn poll_read(self: Pin<&mut Self>, cx: &mut Context<'_>, buf: &mut ReadBuf<'_>) -> Poll<std::io::Result<()>> {
         let mut s = self.0.lock().unwrap();
         let want = buf.remaining();
         let avail = s.data.len() - s.pos;
+        if s.pause_ms > 0 && s.pos == s.pause_at && avail > 0 {
+            // the rest of the frame is late: nothing is handed out before the pause is over, however often the reader asks
+            let now = tokio::time::Instant::now();
+            if !s.paused {
+                s.paused = true;
+                s.resume_at = Some(now + std::time::Duration::from_millis(s.pause_ms));
+            }
+            if let Some(t) = s.resume_at {
+                if now < t {
+                    let w = cx.waker().clone();
+                    tokio::spawn(async move {
+                        tokio::time::sleep_until(t).await;
+                        w.wake();
+                    });
+                    return Poll::Pending;
+                }
+            }
+        }
         let mut n = want.min(avail);
         if s.chunk > 0 {
             n = n.min(s.chunk);
+        }
+        if s.pause_ms > 0 && !s.paused && s.pos < s.pause_at {
+            n = n.min(s.pause_at - s.pos);
         }
         if n == 0 {
             if want > 0 {
@@ -150,6 +175,8 @@ pub fn make_peer(case: &Value) -> Peer {
         s.chunk = case.get("chunk").and_then(|c| c.as_u64()).unwrap_or(0) as usize;
         s.wchunk = case.get("wchunk").and_then(|c| c.as_u64()).unwrap_or(0) as usize;
         s.wfail = case.get("wfail").and_then(|c| c.as_u64()).unwrap_or(0) as usize;
+        s.pause_at = case.get("pause_at").and_then(|c| c.as_u64()).unwrap_or(0) as usize;
+        s.pause_ms = case.get("pause_ms").and_then(|c| c.as_u64()).unwrap_or(0);
     }
     p
 }
@@ -268,8 +295,12 @@ pub fn run_case(rt: &tokio::runtime::Runtime, case: &Value) -> Value {
         }
     };
     // a watchdog in virtual time: nothing in an exchange waits, so any pending future is a hang
+    let mut elapsed_ms = 0u64;
     let r = rt.block_on(async {
-        tokio::time::timeout(std::time::Duration::from_secs(86400), std::panic::AssertUnwindSafe(fut).catch_unwind()).await
+        let t0 = tokio::time::Instant::now();
+        let r = tokio::time::timeout(std::time::Duration::from_secs(86400), std::panic::AssertUnwindSafe(fut).catch_unwind()).await;
+        elapsed_ms = (tokio::time::Instant::now() - t0).as_millis() as u64;
+        r
     });
     let mut s = peer.0.lock().unwrap();
     let note = match r {
@@ -288,6 +319,8 @@ pub fn run_case(rt: &tokio::runtime::Runtime, case: &Value) -> Value {
     out.insert("obs_left".into(), json!(s.data.len() - s.pos));
     out.insert("written".into(), Value::Array(s.datas.clone()));
     out.insert("note".into(), json!(note));
+    out.insert("elapsed_ms".into(), json!(elapsed_ms));
+    out.insert("paused".into(), json!(s.paused));
     Value::Object(out)
 }
 
